@@ -71,8 +71,8 @@ def Func(returns='dyn'):
     return F('func', returns=returns)
 
 
-def Map(values='dyn'):
-    return F('map', values=values)
+def Map(values='dyn', keys='dyn'):
+    return F('map', values=values, keys=keys)
 
 
 def Opaque():
@@ -96,8 +96,8 @@ FIELDS = {
     'ZigZag': {},
     'Flag': {},
     'StringEncoded': {'subcon': Sub(), 'encoding': StrF()},
-    'Enum': {'subcon': Sub(), 'encmapping': Map(), 'decmapping': Map(), 'ksymapping': Map()},
-    'FlagsEnum': {'subcon': Sub(), 'flags': Map('int'), 'reverseflags': Map()},
+    'Enum': {'subcon': Sub(returns='int'), 'encmapping': Map(), 'decmapping': Map(), 'ksymapping': Map()},
+    'FlagsEnum': {'subcon': Sub(returns='int'), 'flags': Map('int', keys='str'), 'reverseflags': Map()},
     'Mapping': {'subcon': Sub(), 'encmapping': Map(), 'decmapping': Map()},
     'Struct': {'subcons': SubList(), '_subcons': Opaque()},
     'Sequence': {'subcons': SubList(), '_subcons': Opaque()},
@@ -112,7 +112,7 @@ FIELDS = {
     'Default': {'subcon': Sub(), 'value': Param('dyn')},
     'Check': {'func': Param('dyn')},
     'Error': {},
-    'FocusedSeq': {'subcons': SubList(), '_subcons': Opaque(), 'parsebuildfrom': Param('dyn')},
+    'FocusedSeq': {'subcons': SubList(), '_subcons': Opaque(), 'parsebuildfrom': Param('str')},
     'Union': {'subcons': SubList(), '_subcons': Opaque(), 'parsefrom': Param('dyn')},
     'Select': {'subcons': SubList()},
     'IfThenElse': {'condfunc': Param('dyn'), 'thensubcon': Sub(), 'elsesubcon': Sub()},
@@ -165,10 +165,9 @@ def make_field(eng, st, iface, cls, name, f):
     if k == 'sublist':
         return VSubList(fresh('subcons', t.INT))
     if k == 'bytes':
-        b = eng.fresh_bytes(st, 'self_' + name)
         if 'length' in f.kw:
-            st.assume(t.eq(b.len, I(f.kw['length'])))
-        return b
+            return eng.fresh_bytes(st, 'self_' + name, ln=I(f.kw['length']))
+        return eng.fresh_bytes(st, 'self_' + name)
     if k == 'bool':
         return VBool(fresh('self_' + name, t.BOOL))
     if k == 'int':
@@ -193,7 +192,9 @@ def make_field(eng, st, iface, cls, name, f):
         ident = fresh('fn_' + name, t.INT)
         return VFunc('self.' + name, model=('model', lambda m, e, a, kw, s, n, _i=ident, _r=f.kw.get('returns', 'dyn'): iface.user_function(e, _i, _r, a, kw, s)))
     if k == 'map':
-        return iface.new_map(eng, st, name, f.kw.get('values', 'dyn'))
+        m = iface.new_map(eng, st, name, f.kw.get('values', 'dyn'))
+        m.keys = f.kw.get('keys', 'dyn')
+        return m
     if k in ('fmt', 'fmtlen'):
         return iface.fmt_field(eng, st, k)
     raise KeyError(k)
@@ -285,11 +286,15 @@ def stream_frame(kind):
     return f
 
 
-def generic_cases(kind):
+def generic_cases(kind, result_kind=None):
     sf = stream_frame(kind)
 
     def ret_ensures(pre, post):
         out = sf(pre, post) + heap_frame(pre, post)
+        if result_kind is not None:
+            rv = post.eng.to_dyn(post.result, post.st)
+            tester = {'int': 'isint', 'bool': '(_ is VBool)', 'bytes': '(_ is VBytes)'}[result_kind]
+            out.append(('result-is-%s' % result_kind, t.app(tester, t.BOOL, rv), ('C06',)))
         if kind == 'sizeof':
             r = post.result
             iv, ok = post.eng.as_int(r, post.st)
@@ -299,15 +304,35 @@ def generic_cases(kind):
     def raise_ensures(pre, post):
         base = 'SizeofError' if kind == 'sizeof' else 'ConstructError'
         tag = ('C05',) if kind == 'sizeof' else ('C06',)
-        out = [('only-%s-escapes' % base, post.eng.exc_sub_term(post.exc.cls, base), tag),
+        ce = post.eng.exc_sub_term(post.exc.cls, base)
+        if kind in ('build', 'encode'):
+            # build side: the value supplied by the caller may be of any type, so TypeError & co. caused by the *value* are
+            # outside C06; what C06 fixes for building is that a failing stream operation never surfaces as a foreign exception
+            out = [('no-foreign-exception-from-a-stream-operation', t.TRUE if not getattr(post.exc, 'from_stream', False) else ce, tag)]
+            if getattr(post.exc, 'from_stream', False) or post.exc.explicit_path or True:
+                pc = path_clause(pre, post)
+                # errors raised by the construct itself (ConstructError subclasses) must carry the path
+                out.append(('error-path-extends-path-argument', t.implies(ce, pc), ('C18',)))
+            return out + heap_frame(pre, post)
+        out = [('only-%s-escapes' % base, ce, tag),
                ('error-path-extends-path-argument', path_clause(pre, post), ('C18',))]
         return out + heap_frame(pre, post)
-    return [Case('returns', 'return', lambda pre: t.TRUE, ensures=ret_ensures, rkind=rk_dyn),
-            Case('raises', 'raise', lambda pre: t.TRUE, ensures=raise_ensures)]
+    mods = ['stream'] if kind in ('parse', 'build') else []
+    return [Case('returns', 'return', lambda pre: t.TRUE, ensures=ret_ensures, rkind=rk_dyn, modifies=mods),
+            Case('raises', 'raise', lambda pre: t.TRUE, ensures=raise_ensures, modifies=mods)]
 
 
-KIND_OF = {'_parse': 'parse', '_parsereport': 'parse', '_build': 'build', '_sizeof': 'sizeof', '_decode': 'adapt', '_encode': 'adapt',
+KIND_OF = {'_parse': 'parse', '_parsereport': 'parse', '_build': 'build', '_sizeof': 'sizeof', '_decode': 'adapt', '_encode': 'encode',
            '_validate': 'adapt', '_actualsize': 'parse'}
+
+# what a successful _parse returns, for classes whose callers rely on it (ZigZag on VarInt, ...)
+RESULT_KIND = {'VarInt': 'int', 'ZigZag': 'int', 'BytesInteger': 'int', 'BitsInteger': 'int', 'Flag': 'bool', 'Bytes': 'bytes', 'GreedyBytes': 'bytes'}
+
+
+def is_abstract(node):
+    import ast
+    body = [n for n in node.body if not (isinstance(n, ast.Expr) and isinstance(n.value, ast.Constant))]
+    return len(body) == 1 and isinstance(body[0], ast.Raise) and 'NotImplementedError' in ast.unparse(body[0])
 
 OUT_OF_SCOPE = {'Pickled', 'Numpy', 'NamedTuple', 'TimestampAdapter', 'Slicing', 'Indexing', 'CompressedLZ4', 'EncryptedSym',
                 'EncryptedSymAead', 'Rebuffered', 'ExprAdapter', 'ExprSymmetricAdapter', 'ExprValidator'}
@@ -326,12 +351,18 @@ def generic_contracts(src):
                 continue
             kind = KIND_OF[m]
             qual = '%s:%s.%s' % (CORE, cls, m)
-            c = FnContract(qual, generic_cases(kind), setup=method_setup(cls), stream_models=('bytesio', 'adv') if kind in ('parse', 'build') else ('bytesio',),
+            abstract = is_abstract(src.find(qual))
+            c = FnContract(qual, generic_cases(kind, RESULT_KIND.get(cls) if m in ('_parse', '_parsereport') else None), setup=method_setup(cls), stream_models=('bytesio', 'adv') if kind in ('parse', 'build') else ('bytesio',),
                            tags=('C05', 'C06', 'C17', 'C18'))
             c.iface = dict(sub_seq=False, params_total=(kind != 'sizeof'))
             c.generic = True
+            c.modifies_heap = True
             c.kind = kind
             c.default_loop = LoopSpec(lambda L: [], tags=('C06',))
+            if abstract:
+                # subclass responsibility: used at call sites as the interface clause, never verified against the raise-stub
+                c.setup = None
+                c.abstract = True
             if cls == 'FormatField':
                 c.variants = [e + f for e in '<>=' for f in 'BHLQbhlqefd?']
             out.append(c)
